@@ -2,6 +2,7 @@ package main
 
 import (
 	"context"
+	"errors"
 	"fmt"
 	"io"
 	"log/slog"
@@ -254,6 +255,15 @@ func init() {
 					case "errorf":
 						t.Errorf("scripted %s", "errorf")
 						return
+					case "errunhash": // an error whose dynamic type is not hashable (a slice type); does not stop the iteration
+						t.Error(sliceError{"scripted", "unhashable"})
+						return
+					case "panicunhash":
+						panic(sliceError{"scripted", "unhashable", "panic"})
+					case "paniclong": // a long message in a multi-byte script
+						panic(errors.New(strings.Repeat("ошибка запроса ", 20))) // 300 runes, 580 bytes
+					case "panicint":
+						panic(42)
 					case "timefail": // the failure is raised inside a timed stage
 						initGlobalMetrics()
 						t.Time("stage", func() { t.FailNow() })
